@@ -122,6 +122,7 @@ impl<T: ToSV> ToSV for &T {
 }
 
 // ---- ghost world ----
+#[verifier::ext_equal]
 pub struct Call {
     pub callee: Address,
     pub func: int,       // function name as its base-256 integer
@@ -130,6 +131,9 @@ pub struct Call {
     pub ok: bool,
 }
 
+/// ext_equal: `=~~=` on worlds compares the maps, sets and sequences extensionally, so an exact-successor-state
+/// clause does not depend on the order in which independent entries were written
+#[verifier::ext_equal]
 pub struct World {
     pub instance: Map<SV, SV>,
     pub persistent: Map<SV, SV>,
